@@ -584,6 +584,16 @@ func (t *transitiveClosure) addElement(
 			t.elements[descriptor] = inclusionModeExcluded
 			return nil
 		}
+		if typeName := typedDescriptor.GetTypeName(); typeName != "" {
+			// The value type is excluded, so this extension is also excluded. This is
+			// checked before the extendee is added: an excluded extension must not
+			// pull its extendee, and the import of the extendee's file, into the closure.
+			typeInfo, ok := imageIndex.ByName[protoreflect.FullName(strings.TrimPrefix(typeName, "."))]
+			if ok && t.elements[typeInfo.element] == inclusionModeExcluded {
+				t.elements[descriptor] = inclusionModeExcluded
+				return nil
+			}
+		}
 		if err := t.addElement(extendeeInfo.element, descriptorInfo.file.Path(), impliedByCustomOption, imageIndex, opts); err != nil {
 			return err
 		}
